@@ -82,7 +82,7 @@ Lemma cupd_shape cu rd lim nid s ini q hn r0 st' r ev :
       ev = flat_map (d_e cu lim (h, b)) (cs_ntfns s0) /\
       st' = mkC cu rd lim nid
                 (Some (mkCS RComplete (Some (h, b)) (map (d_n cu lim (h, b)) (cs_ntfns s0))))
-                (if existsb (d_i cu lim (h, b)) (cs_ntfns s0) then add h ini else ini)
+                (if (cu <? h + lim) || existsb (d_i cu lim (h, b)) (cs_ntfns s0) then add h ini else ini)
                 (padd_all (flat_map (d_q cu lim (h, b)) (cs_ntfns s0)) q) (Some h)))).
 Proof.
   intros E. simpl in E.
